@@ -5,14 +5,17 @@
   every continuation: the integer primitives hand on a value inside the requested range or
   raise invalid data / run out of model fuel — never an out-of-range value and never an
   assertion failure.  Every public integer generator, `SampledFrom`, `OneOf`, every length of
-  a collection, every rune index goes through these primitives.  Collection, string and float
-  contracts are covered by the correspondence check + monitor (see DESIGN.md for what is
-  theorem and what is validated).
+  a collection, every rune index goes through these primitives.  Signed ranges (the sign split
+  and the negation, including -MinInt64), the length bounds of slices, distinct slices, maps of
+  values and strings, key distinctness and the Filter predicate are theorems too; the remaining
+  contracts (floats, UTF-8, regexp, permutation, Make) are covered by the correspondence check +
+  monitor (see DESIGN.md for what is theorem and what is validated).
   Not provable here: termination of rejection loops on the PRNG (probabilistic); the dynamic
   Go type produced by `Make` (reflection).
 -/
 import RapidModel.Generated.Consts
 import RapidProofs.Contracts
+import RapidProofs.ContractsGen
 import RapidModel.Minimize
 
 namespace Rapid.C03
@@ -38,6 +41,44 @@ theorem invalid_range_rejected (ft : FT) (min max : UInt64) (bias : Bool) (fuel 
 
 /-- the hypotheses are satisfiable: a biased draw from `[3, 10]` on a concrete buffer -/
 example : (3 : UInt64) ≤ 10 := by decide
+
+/-- signed ranges: every value handed on lies in `[min, max]` — including ranges that touch
+    `MinInt64` (whose magnitude is not representable) and one-point ranges -/
+theorem intRange_mem (ft : FT) (min max : Int64) (fuel : Nat) (h : min ≤ max) :
+    Yields (fun (k : Int64 × Bool × Bool → Prog) => intRange ft min max fuel (fun i l r => k (i, l, r)))
+      (fun x => min ≤ x.1 ∧ x.1 ≤ max) := yields_intRange ft min max fuel h
+
+/-- every `repeat` loop (collections, strings, maps): the number of accepted elements is between
+    `minCount` and `maxCount` when the loop hands its accumulator on -/
+theorem repeat_count (c : RCfg) (hmm : c.minC ≤ c.maxC) (step : Val → Prog) (hshape : StepShape step)
+    (m : Val → Nat) (hstep : ∀ acc src ts a, ((step acc).run src ts).res = .ok (rAcc a) → m a = m acc + 1)
+    (fuel : Nat) (s : RSt) (acc : Val) (hs : s.count ≤ c.maxC) (hm : m acc = s.count) :
+    Reaches (fun k => repeatLoop c step k fuel s acc) (fun a => c.minC ≤ m a ∧ m a ≤ c.maxC) :=
+  reaches_repeatLoop c hmm step hshape m hstep fuel s acc hs hm
+
+theorem sliceOf_length (e : Env) (lab : Bool) (elem : Gen) (lo hi : Int) (hmm : normMin lo ≤ normMax hi)
+    (src : Src) (ts : TS) (v : Val) (h : (((Gen.slice elem lo hi).body e lab).run src ts).res = .ok v) :
+    normMin lo ≤ v.length ∧ v.length ≤ normMax hi := slice_length e lab elem lo hi hmm src ts v h
+
+theorem sliceOfDistinct_length_and_keys (e : Env) (lab : Bool) (elem : Gen) (lo hi : Int) (key : Val → Val)
+    (hmm : normMin lo ≤ normMax hi) (src : Src) (ts : TS) (v : Val)
+    (h : (((Gen.distinct elem lo hi key).body e lab).run src ts).res = .ok v) :
+    (normMin lo ≤ v.length ∧ v.length ≤ normMax hi) ∧ Val.distinctBy key v :=
+  ⟨distinct_length e lab elem lo hi key hmm src ts v h, distinct_keys e lab elem lo hi key hmm src ts v h⟩
+
+theorem mapOfValues_size (e : Env) (lab : Bool) (vg : Gen) (lo hi : Int) (key : Val → Val) (hmm : normMin lo ≤ normMax hi)
+    (src : Src) (ts : TS) (v : Val) (h : (((Gen.mapOfValues vg lo hi key).body e lab).run src ts).res = .ok v) :
+    normMin lo ≤ v.length ∧ v.length ≤ normMax hi := mapOfValues_length e lab vg lo hi key hmm src ts v h
+
+theorem stringOf_runes (e : Env) (lab : Bool) (elem : Gen) (lo hi ml : Int) (hmm : normMin lo ≤ normMax hi)
+    (src : Src) (ts : TS) (v : Val) (h : (((Gen.stringOf elem lo hi ml).body e lab).run src ts).res = .ok v) :
+    normMin lo ≤ v.length ∧ v.length ≤ normMax hi := stringOf_length e lab elem lo hi ml hmm src ts v h
+
+theorem filter_predicate_holds (e : Env) (lab : Bool) (g : Gen) (p : Val → Bool) (src : Src) (ts : TS) (v : Val)
+    (h : (((Gen.filter g p).body e lab).run src ts).res = .ok v) : p v = true := filter_pred e lab g p src ts v h
+
+/-- the premises are satisfiable: `[MinInt64, MinInt64+1]`, and lengths `2 ≤ 5` -/
+example : (Int64.minValue ≤ Int64.minValue + 1) ∧ normMin 2 ≤ normMax 5 := by decide
 
 /-! ### facts re-read from /repo's source on every run -/
 
